@@ -14,6 +14,7 @@ pub fn lanes() -> Vec<Lane> {
     vec![
         Lane { name: "test-structs", count: |c| if c.thorough() { 600_000 } else { 100_000 }, run: test_struct_lane },
         Lane { name: "shipped", count: |c| if c.thorough() { 600_000 } else { 100_000 }, run: shipped_lane },
+        Lane { name: "dep3-values", count: |_| 5 * 4, run: dep3_values_lane },
         Lane { name: "errors", count: |_| KINDS.iter().map(|k| 2 * k.fields.len() as u64).sum::<u64>() + 40, run: errors_lane },
     ]
 }
@@ -376,6 +377,55 @@ fn shipped_lane(ctx: &mut Ctx, idx: u64) {
     ctx.count(&format!("kind:{}", kind.name));
     ctx.nontrivial(format!("{}|{:?}", k, pairs).as_bytes());
     ctx.sample(|| json!({"struct": kind.name, "paragraph": pairs}));
+}
+
+/// A shipped struct driven from values instead of paragraphs: every origin category x location form of the DEP-3
+/// header, the category-only origin (what "Origin: vendor" reads as) included, through both back-ends.
+fn dep3_values_lane(ctx: &mut Ctx, idx: u64) {
+    use dep3::{Origin, OriginCategory};
+    let cat = [None, Some(OriginCategory::Backport), Some(OriginCategory::Vendor), Some(OriginCategory::Upstream), Some(OriginCategory::Other)][(idx % 5) as usize];
+    let origin = match idx / 5 {
+        0 => Origin::Other(String::new()),
+        1 => Origin::Other("https://example.org/fix.patch".to_string()),
+        2 => Origin::Commit("abc123".to_string()),
+        _ => Origin::Other("some words".to_string()),
+    };
+    if cat.is_none() && matches!(&origin, Origin::Other(s) if s.is_empty()) {
+        ctx.count("skipped:no-origin-at-all");
+        return;
+    }
+    let v = dep3::lossy::PatchHeader {
+        origin: Some((cat, origin.clone())),
+        forwarded: None,
+        author: Some("Joe <joe@example.com>".to_string()),
+        reviewed_by: None,
+        bug_debian: None,
+        last_update: None,
+        applied_upstream: None,
+        bug: None,
+        description: Some("short".to_string()),
+    };
+    let shape = format!("category:{},location:{}", cat.map(|c| c.to_string()).unwrap_or("none".into()), match &origin { Origin::Other(s) if s.is_empty() => "none", Origin::Commit(_) => "commit", _ => "text" });
+    let res = guard(4096, || {
+        let a: lossy::Paragraph = v.to_paragraph();
+        let b: Paragraph = v.to_paragraph();
+        let back_a = <dep3::lossy::PatchHeader as FromDeb822Paragraph<lossy::Paragraph>>::from_paragraph(&a).map(|x| x.origin);
+        let back_b = <dep3::lossy::PatchHeader as FromDeb822Paragraph<Paragraph>>::from_paragraph(&b).map(|x| x.origin);
+        (a.to_string(), back_a, back_b)
+    });
+    ctx.count("evaluations");
+    match res {
+        Err(f) => fail(ctx, &f.class(), "dep3::lossy::PatchHeader", &shape, f.json()),
+        Ok((text, a, b)) => {
+            let want = Ok(v.origin.clone());
+            if a != want || b != want {
+                fail(ctx, "roundtrip-unequal", "dep3::lossy::PatchHeader", &shape, json!({"value": format!("{:?}", v.origin), "paragraph": text, "from_lossy": format!("{:?}", a), "from_lossless": format!("{:?}", b)}));
+                return;
+            }
+            ctx.distinct_exact += 1;
+            ctx.sample(|| json!({"origin": format!("{:?}", v.origin), "paragraph": text}));
+        }
+    }
 }
 
 fn errors_lane(ctx: &mut Ctx, idx: u64) {
